@@ -11,6 +11,9 @@ Emitted:
   literal_suffixes : list string                                        (`suffixes = [...]` in term, in order)
   unsigned_marker : string                                              (`"u" in suffix.lower()`)
   simple_escapes : list (string * Z)                                    (__character_value)
+  lexer_whitespace : list Z (character codes)                           (Lexer.whitespace)
+  lexer_exponents, lexer_operators, lexer_punctuators : list string     (Lexer.number/operator/punctuator, in order)
+  lexer_candidates : list string                                        (Lexer.tokenize_one: method names, in order)
 """
 import ast
 from pathlib import Path
@@ -146,6 +149,41 @@ def generate(repo: Path):
     escapes = [(const(k, str, "escape key"), const(v, int, "escape value")) for k, v in zip(ea[0].value.keys, ea[0].value.values)]
     need(len({k for k, _ in escapes}) == len(escapes), "distinct escape keys")
 
+    # ---- Lexer
+    lex = find_class(mod, "Lexer")
+
+    def str_list(node, what):
+        need(isinstance(node, ast.List), what + " is a list display")
+        return [const(e, str, what + " element") for e in node.elts]
+
+    ws = find_func(lex, "whitespace")
+    ws_lists = [n for n in ast.walk(ws) if isinstance(n, ast.Compare) and len(n.ops) == 1 and isinstance(n.ops[0], ast.In)]
+    need(len(ws_lists) == 1, "one `in [...]` test in Lexer.whitespace")
+    whitespace = str_list(ws_lists[0].comparators[0], "whitespace")
+    need(all(len(c) == 1 and ord(c) < 128 for c in whitespace), "whitespace: single ASCII characters")
+    ex = local_assigns(find_func(lex, "number"), "exponents")
+    need(len(ex) == 1, "exponents = [...]")
+    exponents = str_list(ex[0].value, "exponents")
+    need(all(len(x) == 2 for x in exponents), "exponents have two characters")
+    oa = local_assigns(find_func(lex, "operator"), "operators")
+    need(len(oa) == 1, "operators = ...")
+    ov = oa[0].value
+    if isinstance(ov, ast.BinOp):
+        need(isinstance(ov.op, ast.Add), "operators = [...] + [...]")
+        operators = str_list(ov.left, "operators") + str_list(ov.right, "operators")
+    else:
+        operators = str_list(ov, "operators")
+    pa2 = local_assigns(find_func(lex, "punctuator"), "punctuators")
+    need(len(pa2) == 1, "punctuators = [...]")
+    punctuators = str_list(pa2[0].value, "punctuators")
+    need(all(operators) and all(punctuators), "no empty operator/punctuator")
+    ca = local_assigns(find_func(lex, "tokenize_one"), "candidates")
+    need(len(ca) == 1 and isinstance(ca[0].value, ast.List), "candidates = [...]")
+    candidates = []
+    for e in ca[0].value.elts:
+        need(isinstance(e, ast.Attribute) and isinstance(e.value, ast.Name) and e.value.id == "self", "candidate is self.<method>")
+        candidates.append(e.attr)
+
     def rows(tbl):
         return ";\n   ".join(f"({coq_string(k)}, ({p}%nat, {a}))" for k, p, a in tbl)
 
@@ -180,5 +218,12 @@ Definition unsigned_marker : string := {coq_string(marks[0])}.
 (* ExpressionEvaluator.__character_value *)
 Definition simple_escapes : list (string * Z) :=
   [{zrows(escapes)}].
+
+(* Lexer *)
+Definition lexer_whitespace : list Z := [{"; ".join(str(ord(c)) + "%Z" for c in whitespace)}].
+Definition lexer_exponents : list string := [{"; ".join(coq_string(x) for x in exponents)}].
+Definition lexer_operators : list string := [{"; ".join(coq_string(x) for x in operators)}].
+Definition lexer_punctuators : list string := [{"; ".join(coq_string(x) for x in punctuators)}].
+Definition lexer_candidates : list string := [{"; ".join(coq_string(x) for x in candidates)}].
 """
     return {"C02_tables.v": text}
